@@ -5,3 +5,4 @@ import EmdModel.Write
 import EmdModel.Save
 import EmdModel.SaveList
 import EmdModel.Read
+import EmdModel.Valid
